@@ -115,6 +115,29 @@ claim("C12", "proof",
       "Coq kernel; gob+gzip trusted as lossless transport; debug blocks judged syntactically.",
       "Rocq proof (zip round trip) + file-level translation validation + behavioural comparison across all flag subsets", "6 C12")
 
+claim("C04", "proof",
+      "Coq theorems (Properties/C04.v): the canonical LR(1) collection is specified inductively (Dragon-book closure/goto with semantic "
+      "FIRST, no tables); for every dumped automaton passing the boolean certificate auto_valid, its item sets ARE the canonical item sets "
+      "of their access strings and all canonical states are present; hence gocc's count is > 0 iff some canonical state has a terminal with "
+      "two different actions, and resolution is refused iff accept competes. auto_valid and the recomputed count are evaluated by the Coq "
+      "kernel on gocc's dump for every grammar of the run and compared with the announced count; the binary is run with and without -a "
+      "(count line, exit status); an independent Python canonical construction labels disagreements.",
+      LR_NOTE + " The mapping conflict count -> exit status is checked on the binary, not proved.",
+      "Rocq proof (dump = canonical collection under a checked certificate) + kernel-evaluated translation validation + exit-status exploration", "6 C04")
+claim("C16", "proof",
+      "Model-level theorems (Properties/C16.v, shallow by design: Parse begins with Reset, lexer Reset = init) plus the correspondence that "
+      "carries the assurance: histories of 2-8 inputs (accepted, rejected, recovered, failing action) on ONE parser object vs fresh objects "
+      "(result, error, expected list, action log, scans) and lexer Scan/Reset histories vs a fresh lexer, also compared with the model.",
+      "Hand-written models tied by differential testing over histories; actions retaining the raw attribute slice (Go slice aliasing) are out of scope.",
+      "Rocq statement over the object-state model + differential exploration over call histories", "6 C16")
+claim("C17", "other",
+      "Partial by nature. Coq theorem (Properties/C17.v): objects that write only their own state over shared immutable data obtain, under "
+      "EVERY schedule, exactly their sequential results. The frame assumption is checked on the emitted code on every run (go/types scan: no "
+      "write to package-level state outside init(), plain and -zip). 16 goroutines with own lexer/parser objects run under the race detector "
+      "and are compared with the sequential run.",
+      "The Go memory model and the race detector's coverage cannot be carried by a theorem; named as the runtime residue.",
+      "Rocq commutation theorem + source-level frame check on generated code + race-detector exploration", "6 C17")
+
 ALL = ["C%02d" % i for i in range(1, 21)]
 NOT_YET = "framework under construction: check for this property not built yet (planned, see DESIGN.md section 6)"
 
